@@ -269,18 +269,20 @@ pub fn ref_close(cfg: &ReqCfg, plan: &RespPlan, refused_edge: bool) -> Vec<&'sta
     v
 }
 
+/// Map the reason text to a close condition by keyword. Only an unambiguous wording (exactly one
+/// keyword class matches) is judged; anything else counts as unverifiable.
 pub fn reason_class(r: &str) -> Option<&'static str> {
     let l = r.to_ascii_lowercase();
-    if l.contains("1.0") {
-        Some("http10")
-    } else if l.contains("client") {
-        Some("client-close")
-    } else if l.contains("server") {
-        Some("server-close")
-    } else if l.contains("100") {
-        Some("not-100")
-    } else if l.contains("delimited") {
-        Some("close-delimited")
+    let classes: [(&str, bool); 5] = [
+        ("http10", l.contains("1.0")),
+        ("client-close", l.contains("client")),
+        ("server-close", l.contains("server")),
+        ("not-100", l.contains("100")),
+        ("close-delimited", l.contains("delimited")),
+    ];
+    let hits: Vec<&str> = classes.iter().filter(|c| c.1).map(|c| c.0).collect();
+    if hits.len() == 1 {
+        Some(hits[0])
     } else {
         None
     }
